@@ -3,6 +3,7 @@ package main
 import (
 	"fmt"
 	"math/rand"
+	"net/http"
 	"strings"
 	"sync"
 	"sync/atomic"
@@ -72,8 +73,15 @@ func c06(r *hx.Run) {
 	})
 	defer w.Farm.Close()
 	w.Farm.SetScript(func(f *hx.Fetch) *hx.Reply {
-		return &hx.Reply{Status: 200, Header: [][2]string{{"Cache-Control", "max-age=1"}, {"Content-Type", "text/plain"},
-			{"X-Echo-Method", f.Method}, {"X-Echo-Host", f.Host}, {"X-Echo-Uri", f.URI}}, Body: hx.IdentBody(f, 40, "text")}
+		// every resource carries the same strong validator (as upstreams deriving it from mtime and size
+		// do); every seventh one is a compressible body of exactly 1500 bytes, so that many different keys
+		// share validator and length
+		body := hx.IdentBody(f, 40, "text")
+		if (len(f.URI)+len(f.Host))%7 == 0 {
+			body = hx.IdentBodyTotal(f, 1500, "text")
+		}
+		return &hx.Reply{Status: 200, Header: [][2]string{{"Cache-Control", "max-age=1"}, {"Content-Type", "text/plain"}, {"ETag", `"5f3e-960"`},
+			{"X-Echo-Method", f.Method}, {"X-Echo-Host", f.Host}, {"X-Echo-Uri", f.URI}}, Body: body}
 	})
 	keys := c06Universe(rnd, 8)
 	var evictions atomic.Int64
@@ -98,7 +106,7 @@ func c06(r *hx.Run) {
 	for i := range seeds {
 		seeds[i] = rnd.Int63()
 	}
-	var hits, fetches, requests atomic.Int64
+	var hits, fetches, requests, forwardedHdr atomic.Int64
 	answeredAfterEviction := sync.Map{}
 	for c := 0; c < clients; c++ {
 		wg.Add(1)
@@ -113,7 +121,13 @@ func c06(r *hx.Run) {
 					k = keys[lr.Intn(len(keys))]
 				}
 				si := lr.Intn(len(sizes))
-				res := w.Cl.Do(hx.Req{Method: k.Method, Addr: srvAddr(ports[si]), Host: k.Host, URI: k.URI, Proc: c})
+				rq := hx.Req{Method: k.Method, Addr: srvAddr(ports[si]), Host: k.Host, URI: k.URI, Proc: c}
+				if lr.Intn(4) == 0 {
+					// headers a front proxy (or anybody) may add: they are no part of the key, the Host is
+					rq.Header = http.Header{"X-Forwarded-Host": {"front.example"}, "X-Forwarded-For": {"10.1.2.3"}, "Forwarded": {"host=front.example;proto=https"}, "X-Original-Url": {"/c06/other"}}
+					forwardedHdr.Add(1)
+				}
+				res := w.Cl.Do(rq)
 				requests.Add(1)
 				if res.Err != nil || res.Status != 200 {
 					r.Violate("request_failed", nil, fmt.Sprintf("status %d err %v", res.Status, res.Err), res.Brief(), k)
@@ -149,6 +163,7 @@ func c06(r *hx.Run) {
 	wg.Wait()
 	r.Eval(requests.Load())
 	r.Add("requests", requests.Load())
+	r.Add("requests_with_forwarded_host_headers", forwardedHdr.Load())
 	r.Add("hits", hits.Load())
 	r.Add("fetches", fetches.Load())
 	r.Add("evictions", evictions.Load())
